@@ -124,6 +124,11 @@ static void pred_c01(const Case &c) {
     matrix *rm; initMatrix(&rm);
     GetResidualMatrix(mx, m, (size_t)npc, rm);
     VF_CHECK((int)rm->row == n && (int)rm->col == p, "GetResidualMatrix shape %s", dims(rm).c_str());
+    {   // more components than the model holds: clipped to the model, like PCAScorePredictor / PCAIndVarPredictor do
+      matrix *rm2; initMatrix(&rm2); GetResidualMatrix(mx, m, (size_t)npc + 2, rm2);
+      for (int i = 0; i < n; i++) for (int j = 0; j < p; j++) VF_CHECK(rm2->data[i][j] == rm->data[i][j], "GetResidualMatrix asked for %d components of a %d-component model differs from the %d-component residual at (%d,%d)", npc + 2, npc, npc, i, j);
+      DelMatrix(&rm2);
+    }
     for (int i = 0; i < n; i++) {
       ld tsum = 0; for (int k = 0; k < npc; k++) tsum += fabsl(T(i, k));
       for (int j = 0; j < p; j++) {
